@@ -11,6 +11,8 @@ CONSTANTS
   Filters <- FNone
   Order <- OrderStated
   CompileMode = "stated"
+  Inners <- InnersNone
+  ScopeMode = "stated"
 INIT InitCover
 NEXT Next
 INVARIANTS KeepInv BalanceSheetInv IncomeInv EquityInv TxBalanceInv LayoutInv FilterInv CompileInv SortedInv ExpectInv
